@@ -214,6 +214,35 @@ def run(chk):
                                                     "-%s + ~%s", "!%s || %s", "let q = %s; q[0] = q; len(q) // %s",
                                                     "match %s { 1 => 1, 2..5 => 2, _ => %s }",
                                                     "if %s { 1 } else { %s }", "(%s)(%s)"]) % (a, rng.choice(srcs))))
+        # header fields assigned values of every kind (incl. lengths that contradict the capture), then the packet is
+        # printed and written back
+        from . import pkt as _pkt
+        frames = {
+            "eth.ipv4.tcp": _pkt.eth(b"\x02" * 6, b"\x04" * 6, _pkt.ET_IPV4, _pkt.ipv4(b"\x0a\0\0\1", b"\x0a\0\0\2", 6, _pkt.tcp(1, 2, b"pay", 3, 4, 7), 6)),
+            "eth.ipv4.udp": _pkt.eth(b"\x02" * 6, b"\x04" * 6, _pkt.ET_IPV4, _pkt.ipv4(b"\x0a\0\0\1", b"\x0a\0\0\2", 17, _pkt.udp(5, 6, b"data"))),
+            "eth.ipv6.udp": _pkt.eth(b"\x02" * 6, b"\x04" * 6, _pkt.ET_IPV6, _pkt.ipv6(bytes(16), bytes(15) + b"\1", 17, _pkt.udp(5, 6, b"data"))),
+            "eth.vlan.ipv4": _pkt.eth(b"\x02" * 6, b"\x04" * 6, _pkt.ET_VLAN, _pkt.vlan(1, 0, 5, _pkt.ET_IPV4, _pkt.ipv4(b"\x0a\0\0\1", b"\x0a\0\0\2", 1, b"icmp"))),
+        }
+        afile = {}
+        for nm, fr in frames.items():
+            afile[nm] = os.path.join(work, "asg-%s.pcap" % nm.replace(".", "-"))
+            with open(afile[nm], "wb") as f:
+                f.write(_pkt.pcap_file([(1, 2, fr)]))
+        avals = [lit(v) for v in (0, 1, 4, 5, 6, 15, 16, 255, 256, 65535, 65536, -1, I64_MAX, I64_MIN, 1.5, "", "1.2.3.4", "1:2:3:4:5:6:7:8:9::", "::1:2:3:4:5:6:7:8:9",
+                                  "1:2:3:4:5:6:7:8:9:a::", "1::2:3:4:5:6:7:8:9", "::", "aa:bb:cc:dd:ee:ff", "é", None, True)] + ["[1]", "map {}", "byte(7)", "'c'", "p", "p.eth"]
+        outw = os.path.join(work, "asg-out.pcap")
+        for nm in frames:
+            layers = nm.split(".")
+            for d in range(len(layers)):
+                path_ = "p." + ".".join(layers[:d + 1])
+                for prop in list(_pkt.FIELDS[layers[d]].keys()) + ["payload"]:
+                    for v in avals:
+                        jobs.append(("assign", layers[d] + "." + prop,
+                                     "let p = pcap_read_next(pcap_open(%s)); let L = %s; L.%s = %s; let o = pcap_open(%s, \"w\"); pcap_write(o, p); write(o, p); len(str(L.%s));"
+                                     % (lit(afile[nm]), path_, prop, v, lit(outw), prop)))
+            for prop in ("sec", "usec", "caplen", "wirelen", "payload", "eth"):
+                for v in avals[:14]:
+                    jobs.append(("assign", "packet." + prop, "let p = pcap_read_next(pcap_open(%s)); p.%s = %s; pcap_write(pcap_open(%s, \"w\"), p); p.eth;" % (lit(afile[nm]), prop, v, lit(outw))))
         for tmpl in RECURSION:
             if "%d" in tmpl:
                 for d in DEPTHS:
